@@ -20,6 +20,21 @@ CHECKS = {
    text="Rewrites are contract actions of LwCircuit (transformation, heralds, input size preserved; no group after unpack; copies independent), checked by TLC with exact matrices; dumped and simulated programs with rewrites followed by further edits are replayed, and recorded rewrite-heavy histories are validated by LwCircuitTrace including the structure postconditions (no group, no non-adjacent beam splitter also inside groups, component count not grown).",
    note="Contract-style: a different compression algorithm is not an alarm. unpack_groups of a circuit with ancillas is bound to the recorded placement of the former ancillas. " + TB,
    technique="TLC on LwCircuit rewrite actions (RewriteProp, NoGroupAfterUnpack, CopyProp); replay; trace validation with recorded structure"),
+ "C03": dict(
+   level="model_checking", design="DESIGN.md section 5 C03",
+   text="Simulate is a read action of LwCircuit whose result (the table of <<permanent, factorial denominator>> pairs with herald photons on heralded lines and vacuum on loss lines) TLC computes exactly in the ring for every input with up to 2 (thorough 3) photons on every circuit in scope; SimUnit (unit vector for lossless circuits) is an invariant; every generated program + read is replayed into the real Simulator and compared entry by entry (1e-9), invalid inputs must be rejected.",
+   note="Discrete parameter alphabet (ring); circuits up to 3 user modes + 3 ancillas + loss lines; continuous parameters are not covered by this check (C01/C02 cover the matrix for them). " + TB,
+   technique="TLC evaluates the Fock-space amplitude definition (LwFock) on LwCircuit states; dump / simulate behaviours replayed into Simulator"),
+ "C04": dict(
+   level="model_checking", design="DESIGN.md section 5 C04",
+   text="SamplerDist (loss-marginalised exact distribution) is a read action of LwCircuit; DistNorm (non-negative, sums to one) is a TLC invariant on every circuit and input in scope; the real Sampler's probability_distribution for BOTH back-ends is compared entry by entry with TLC's exact values and with each other.",
+   note="Ideal source only (C06 covers imperfect sources). Tolerance 1e-9 per truncated state. " + TB,
+   technique="TLC evaluates the exact loss-marginalised distribution on LwCircuit states; behaviours replayed into Sampler with both back-ends"),
+ "C05": dict(
+   level="model_checking", design="DESIGN.md section 5 C05",
+   text="AnalyzerTable and QuickTable are DEFINED in the specification from SamplerDist (heralds inserted, post-selection rule sets, photon number n or <= n, at most one photon per mode for threshold detection) and evaluated exactly by TLC (invariants AnalyzeBound, QuickBound); the real Analyzer (probabilities, performance, error rate) and QuickSampler (renormalised distribution) must agree on every generated circuit x input x rule set x detector mode, and must not raise where the sampler works (photon-carrying heralds, heralds with different in/out modes).",
+   note="Rule-set post-selection only (4 rule sets); lambda predicates are exercised in C07/C11. " + TB,
+   technique="TLC evaluates the defining relations between the emulator objects on LwCircuit states; behaviours replayed into Analyzer / QuickSampler"),
  "C10": dict(
    level="model_checking", design="DESIGN.md section 5 C10",
    text="LwParams (value / min / max, ParameterDict) is checked exhaustively by TLC over ALL interleavings of accepted and rejected updates (no depth bound; invariants InBounds, BoundsNumeric; action property RejectedChangesNothing) and its behaviours are replayed into real Parameter / ParameterDict objects with the full state compared after every call. LwCircuit carries parameter references in its ops and a pval variable: TLC checks LiveParams (every circuit's exact matrix is the one for the current values after ANY step, including Parameter.set, rewrites, additions, copies), FrozenProp and frames; dumped and simulated programs are replayed and U, get_all_params and compile errors compared.",
